@@ -80,6 +80,15 @@ Proof. intros H. exact (lfr_cache_first_answer_wins H). Qed.
 
 End C06.
 
+(** ... and for the IEEE-754 instance the hypothesis is a theorem (FloatLaws.v, from the specification of
+    Coq's primitive floats), so the cache statement holds unconditionally for the bit-exact model *)
+From MV Require Import NumFloat FloatLaws.
+Theorem C06_cache_first_answer_wins_float : forall (p : @lfr_params NumFloat) k d b e n x,
+  cache_find k d (l_cache e) = Some b ->
+  cache_find k d (l_cache (fst (lfr_step p e n x))) = Some b /\
+  cache_find k d (l_cache (lfr_reset e)) = Some b.
+Proof. exact (C06_cache_first_answer_wins NumFloat_feqb_cong). Qed.
+
 Print Assumptions C06_confusion_counts.
 Print Assumptions C06_rates_definition.
 Print Assumptions C06_step_updates_confusion.
@@ -89,3 +98,4 @@ Print Assumptions C06_untracked_silent.
 Print Assumptions C06_recs.
 Print Assumptions C06_reset_keeps_only_cache.
 Print Assumptions C06_cache_first_answer_wins.
+Print Assumptions C06_cache_first_answer_wins_float.
